@@ -18,7 +18,27 @@ def run_case(case):
     std, mode = case["std"], case["mode"]
     res = {"key": [case["seed"], std, mode], "counts": {"mode:" + mode: 1}, "findings": []}
     src = c10.decorate(p, case["seed"], mode)
-    o = real.try_parse(src, std=std, ignore_comments=(mode == "drop"), process_directives=(mode == "directives"), free=True)
+    tmpd = None
+    if case["seed"] % 4 == 1:
+        # the same tree read through a FortranFileReader (the nodes refer to their reader,
+        # which then holds an open file)
+        import tempfile
+        import os
+        tmpd = tempfile.mkdtemp(prefix="fv_c18_")
+        path = os.path.join(tmpd, "src.f90")
+        with open(path, "w") as f:
+            f.write(src)
+        res["counts"]["reader:file"] = 1
+        try:
+            rd = real.make_reader(None, path=path, ignore_comments=(mode == "drop"), process_directives=(mode == "directives"), free=True)
+            o = real.Outcome("tree", tree=real.get_parser(std)(rd), reader=rd)
+        except Exception:  # noqa: BLE001
+            o = real.Outcome("other")
+        finally:
+            import shutil
+            shutil.rmtree(tmpd, ignore_errors=True)
+    else:
+        o = real.try_parse(src, std=std, ignore_comments=(mode == "drop"), process_directives=(mode == "directives"), free=True)
     if o.kind != "tree":
         res["nontrivial"] = False
         return res
@@ -34,7 +54,7 @@ def run_case(case):
         except Exception as e:  # noqa: BLE001
             res["findings"].append({"signature": "%s-raises:%s" % (how, type(e).__name__),
                                     "what": "%s failed: %s: %s" % (how, type(e).__name__, str(e)[:200]),
-                                    "replay": {"case": case, "source": src, "how": how}})
+                                    "replay": {"case": case, "source": src, "how": how, "reader": "file" if tmpd else "string"}})
             continue
         if str(c) != s0:
             res["findings"].append({"signature": how + "-text-differs", "what": "%s prints differently" % how,
